@@ -19,6 +19,7 @@ import (
 	dsmysql "seata.apache.org/seata-go/pkg/datasource/sql/datasource/mysql"
 	"seata.apache.org/seata-go/pkg/protocol/branch"
 	"seata.apache.org/seata-go/pkg/protocol/codec"
+	"seata.apache.org/seata-go/pkg/protocol/message"
 	"seata.apache.org/seata-go/pkg/remoting/loadbalance"
 
 	"verifharness/memdb"
@@ -65,6 +66,15 @@ func runC20(c *Ctx) {
 		// further phase-two commits keep arriving (its collecting buffer and hand-over queue are in use at once)
 		for k := 0; k < 4; k++ {
 			w.Eng.AddFault(memdb.Fault{Kind: "delete", Table: "undo_log", Nth: 2 + 5*k, Delay: 25 * time.Millisecond})
+		}
+		// the coordinator answers some requests twice (a retransmission): dubbo-getty hands every message to a
+		// task pool, so the two copies of a reply are processed at the same time
+		var seenReq int64
+		w.coord.Script = func(s *FakeSession, kind string, m message.RpcMessage) Action {
+			if atomic.AddInt64(&seenReq, 1)%4 == 0 {
+				return Action{Dup: 1}
+			}
+			return Action{}
 		}
 		var wg sync.WaitGroup
 		var txDone, txErr int64
@@ -207,6 +217,7 @@ func runC20(c *Ctx) {
 			terminated = false
 		}
 		close(stop)
+		w.coord.Script = nil
 		w.Eng.ClearFaults()
 		// ---- quiescence and leaks
 		time.Sleep(300 * time.Millisecond)
